@@ -1,6 +1,6 @@
 import Asn1Proofs.Lemmas.X690CompDefs
 /-
-  The strict reference decoder `decVS` (reference decoder minus the two named deviations) is a
+  The strict reference decoder `decVS` (reference decoder minus the named deviation `dirtyUnusedBits`) is a
   restriction of the reference decoder `decV`: whatever it accepts, `decV` accepts with the same
   value; outside `berDeviates` the two agree.
 -/
@@ -226,11 +226,9 @@ theorem ss_sequence (root : Members) (e : Bool) (adds : Members)
       obtain ⟨fs1, c1⟩ := z
       rw [h1] at hy; rw [ss_components root ihr _ _ _ _ h1]
       simp only at hy ⊢
-      split at hy
-      · cases hy
-      · cases h2 : decComponentsS adds root.length fuel c1 with
-        | none => rw [h2] at hy; cases hy
-        | some w => rw [h2] at hy; rw [ss_components adds iha _ _ _ _ h2]; exact hy
+      cases h2 : decComponentsS adds root.length fuel c1 with
+      | none => rw [h2] at hy; cases hy
+      | some w => rw [h2] at hy; rw [ss_components adds iha _ _ _ _ h2]; exact hy
 
 theorem ss_sequenceOf (e : Ty) (c : SizeC) (ih : ss_SUB e) : ss_SUB (.sequenceOf e c) := by
   intro tg fuel bs rest v h
